@@ -224,16 +224,36 @@ type RawSPS struct {
 	Vui                      RawVUI
 }
 
+// cropUnits 返回裁剪单位 CropUnitX/CropUnitY（H.264 7.4.2.1.1），
+// 取决于色度格式、separate_colour_plane_flag 和 frame_mbs_only_flag
+func (sps *RawSPS) cropUnits() (x, y int) {
+	chromaArrayType := sps.ChromaFormatIdc
+	if sps.SeparateColourPlaneFlag == 1 {
+		chromaArrayType = 0
+	}
+	fieldMul := 2 - int(sps.FrameMbsOnlyFlag)
+	switch chromaArrayType {
+	case 1: // 4:2:0
+		return 2, 2 * fieldMul
+	case 2: // 4:2:2
+		return 2, fieldMul
+	default: // 单色或 4:4:4
+		return 1, fieldMul
+	}
+}
+
 // Width 视频宽度（像素）
 func (sps *RawSPS) Width() int {
-	w := (sps.PicWidthInMbsMinus1+1)*16 - sps.FrameCropLeftOffset*2 - sps.FrameCropRightOffset*2
-	return int(w)
+	cropX, _ := sps.cropUnits()
+	return (int(sps.PicWidthInMbsMinus1)+1)*16 -
+		cropX*(int(sps.FrameCropLeftOffset)+int(sps.FrameCropRightOffset))
 }
 
 // Height 视频高度（像素）
 func (sps *RawSPS) Height() int {
-	h := (2-uint16(sps.FrameMbsOnlyFlag))*(sps.PicHeightInMapUnitsMinus1+1)*16 - sps.FrameCropTopOffset*2 - sps.FrameCropBottomOffset*2
-	return int(h)
+	_, cropY := sps.cropUnits()
+	return (2-int(sps.FrameMbsOnlyFlag))*(int(sps.PicHeightInMapUnitsMinus1)+1)*16 -
+		cropY*(int(sps.FrameCropTopOffset)+int(sps.FrameCropBottomOffset))
 }
 
 // FrameRate Video frame rate
